@@ -35,6 +35,7 @@ enum { VS_OK = 0, VS_DEADLOCK = 1, VS_HORIZON = 2, VS_DIVERGE = 3, VS_SLEEPBLOCK
 extern vs_pt_t vs_pts[VS_MAXPTS];
 extern int vs_npts;
 extern long vs_steps;        /* scheduling steps (transitions) */
+extern int vs_pc_frames;     /* return addresses hashed into a thread's control location (state hash) */
 extern long vs_horizon;      /* max steps, default 200000 */
 extern int vs_prefix[VS_MAXPTS];
 extern int vs_nprefix;
@@ -43,7 +44,8 @@ extern int vs_spurious;      /* remaining spurious wake-ups that may be injected
 extern int vs_nthreads_seen; /* threads created in this scenario incl. main */
 extern vs_race_t vs_races[VS_MAXRACES];
 extern int vs_nraces;
-extern uint64_t vs_hashes[VS_MAXPTS]; /* state hash at each recorded choice point */
+extern uint64_t vs_hashes[VS_MAXPTS];
+extern uint64_t vs_parts[VS_MAXPTS][4]; /* the same hash split into its four components (debugging the abstraction) */ /* state hash at each recorded choice point */
 extern uint64_t (*vs_obs_hash)(void); /* harness-supplied observable-state hash (may be NULL) */
 extern long (*vs_group_of)(int op, void *obj); /* canonical id of the object a pending pthread op names (state hash); -1 = unknown */
 /* footprints (sleep-set mode): which shared objects the transition that starts at a scheduling point touches.
